@@ -62,6 +62,7 @@ void h_cond_timedwait(void)
     int r = ABT_cond_timedwait((ABT_cond)&cv, (ABT_mutex)&mx, &ts);
     COMMON_POST(ABT_SUCCESS, ABT_ERR_COND_TIMEDOUT)
     if (wm0 != &mx2) VF_ASSERT((r == ABT_ERR_COND_TIMEDOUT) == (vf_wl_timedout == ABT_TRUE), "ABT_ERR_COND_TIMEDOUT iff the wait list reported a time-out (signalled first => ABT_SUCCESS)");
+    if (vf_wl_waits == w0 + 1) { double want = (double)ts.tv_sec + 1.0e-9 * (double)ts.tv_nsec; VF_ASSERT(vf_wl_deadline >= want - 1.0e-3 && vf_wl_deadline <= want + 1.0e-3, "the deadline handed to the wait list is the caller's absolute time (seconds AND nanoseconds), to within a millisecond: no time-out before the deadline"); }
     VF_REACH("cond_timedwait returns");
     VF_COVER(r == ABT_ERR_COND_TIMEDOUT, "timed out"); VF_COVER(r == ABT_SUCCESS, "signalled"); VF_COVER(r == ABT_ERR_INV_MUTEX, "wrong mutex");
 }
